@@ -437,7 +437,7 @@ static kinfo K_pvq = { "op_pvq_search_sse2", "op_pvq_search" };
 opus_val16 __real_op_pvq_search_sse2(celt_norm *_X, int *iy, int K, int N, int arch);
 opus_val16 __wrap_op_pvq_search_sse2(celt_norm *_X, int *iy, int K, int N, int arch)
 {
-   celt_norm *Xc; int *iy2; opus_val16 got, ref; int j, sh[2], fresh; long sums = 0, sumc = 0, sss = 0, ssc = 0, same = 1;
+   celt_norm *Xc; int *iy2; opus_val16 got, ref; int j, sh[2], fresh, worse = 0; long sums = 0, sumc = 0, sss = 0, ssc = 0, same = 1;
    double xx = 0, xs = 0, xc = 0, qs, qc;
    ENTER(K_pvq);
    if (PLAIN() || N <= 0 || K <= 0) return __real_op_pvq_search_sse2(_X, iy, K, N, arch);
@@ -457,7 +457,13 @@ opus_val16 __wrap_op_pvq_search_sse2(celt_norm *_X, int *iy, int K, int N, int a
    K_pvq.cmp++; if (!same) K_pvq.neq++;
    sh[0] = N; sh[1] = K;
    fresh = new_shape(&K_pvq, sh, 2);
-   if (g_logall || fresh || (!same && K_pvq.nlog < 300) ) {
+   {
+      /* every new worst case of (portable match - SIMD match) is logged, so that the recorded maximum is the true one */
+      long loss = (long)floor(qc * 1e6 + 0.5) - (long)floor(qs * 1e6 + 0.5);
+      worse = (xx > 1e-30 && xx < 1e30) && loss > K_pvq.rworst;
+      if (worse) { K_pvq.rworst = loss; K_pvq.nworst = N; }
+   }
+   if (g_logall || fresh || worse || (!same && K_pvq.nlog < 100) ) {
       int degenerate = !(xx > 1e-30 && xx < 1e30);
       if (!same) K_pvq.nlog++;
       kc_head(&K_pvq, sh, 2);
@@ -904,6 +910,7 @@ static int run_history(char *line)
    char *bar = strchr(line, '|'), *tk; int top = opus_select_arch_uncapped_level(), lv, t, f;
    int frame, nfr; opus_int16 *in; unsigned char *pk[MAXLV]; int *plen[MAXLV]; opus_uint32 *prng[MAXLV];
    int srcs[2], nsrc, si;
+   static char lines[MAXLV][MAXTOK][320];
    if (!bar) return -1;
    *bar = 0;
    if (sscanf(line, "H %ld %d %d %d %d %d %d %d %d %d %d %ld", &id, &app, &fs, &ch, &cx, &br, &br2, &fec, &durq, &vbr, &run, &sigseed) != 12) return -1;
@@ -947,11 +954,12 @@ static int run_history(char *line)
             dg ^= rng; dg *= 1099511628211ULL; dg ^= (uint64_t)(uint32_t)plen[lv][i]; dg *= 1099511628211ULL;
             bytes += r;
          }
-         printf("{\"k\":\"enc\",\"t\":%d,\"lv\":%d,\"arch\":%d,\"tok\":\"%c\",\"n\":%d,\"bad\":%d,\"bytes\":%ld,\"pd\":\"%016llx\"}\n",
+         snprintf(lines[lv][t], sizeof lines[lv][t], "{\"k\":\"enc\",\"t\":%d,\"lv\":%d,\"arch\":%d,\"tok\":\"%c\",\"n\":%d,\"bad\":%d,\"bytes\":%ld,\"pd\":\"%016llx\"}\n",
                 t + 1, lv, arch, toks[t], run, bad, bytes, (unsigned long long)dg);
       }
       opus_encoder_destroy(enc);
    }
+   for (t = 0; t < ntok; t++) for (lv = 0; lv <= top; lv++) fputs(lines[lv][t], stdout);
    /* decoders: every level decodes the packets of the level-0 encoder and of the top-level encoder */
    srcs[0] = 0; nsrc = 1; if (top > 0) { srcs[1] = top; nsrc = 2; }
    for (si = 0; si < nsrc; si++) {
@@ -1007,11 +1015,12 @@ static int run_history(char *line)
 #else
             mxi = nonfinite ? 1000000000L : (mx * 32768.0 > 9e8 ? 900000000L : (long)ceil(mx * 32768.0));     /* in 16-bit units */
 #endif
-            printf("{\"k\":\"dec\",\"t\":%d,\"lv\":%d,\"arch\":%d,\"src\":%d,\"tok\":\"%c\",\"n\":%d,\"clean\":%d,\"rd\":\"%016llx\",\"pd\":\"%016llx\",\"mx\":%ld}\n",
+            snprintf(lines[lv][t], sizeof lines[lv][t], "{\"k\":\"dec\",\"t\":%d,\"lv\":%d,\"arch\":%d,\"src\":%d,\"tok\":\"%c\",\"n\":%d,\"clean\":%d,\"rd\":\"%016llx\",\"pd\":\"%016llx\",\"mx\":%ld}\n",
                    t + 1, lv, arch, src, toks[t], run, clean, (unsigned long long)rd, (unsigned long long)pd, mxi);
          }
          opus_decoder_destroy(dec);
       }
+      for (t = 0; t < ntok; t++) for (lv = 0; lv <= top; lv++) fputs(lines[lv][t], stdout);
       free(ref0); free(out);
    }
    for (lv = 0; lv <= top; lv++) { free(pk[lv]); free(plen[lv]); free(prng[lv]); }
